@@ -197,9 +197,13 @@ REGISTRY = {
         'rule': 'pformat of built-in value trees vs the model (SDoc stream + text), eval oracle with exact types',
     },
     'C03': {
-        'theorems': ['PP.C04.sound_pformat', 'PP.C02.lines_join', 'PP.C03.nests_are_indent'],
-        'modules': VALUE_MODULES + ['PP.Props.Values'],
+        'theorems': ['PP.C03.layout_invariant', 'PP.C03.output_tokens', 'PP.C03.any_layout_tokens', 'PP.Tok.ctoks_lay',
+                     'PP.Tok.evalStr_tokens', 'PP.Tok.toDocW_ok', 'PP.C04.sound_pformat', 'PP.C02.lines_join', 'PP.C02.unescape_escape',
+                     'PP.C03.nests_are_indent'],
+        'modules': VALUE_MODULES + ['PP.Props.Values', 'PP.Spec.Tokens', 'PP.Proofs.Toks', 'PP.Proofs.ToksStr', 'PP.Proofs.ToksComb',
+                                    'PP.Proofs.ToksVal', 'PP.Props.C03'],
         'sections': [{'name': 'builtin-values', 'run': values_sec('builtin_values_section')},
+                     {'name': 'tokens', 'run': values_sec('tokens_section')},
                      {'name': 'comments', 'run': values_sec('comments_section', mode='c03')},
                      {'name': 'subclasses', 'run': values_sec('subclasses_section')},
                      {'name': 'calls', 'run': values_sec('calls_section')}],
